@@ -181,7 +181,7 @@ def power_analyze(field, spaces=None, binbounds=None,
 
 
 def _create_power_field(domain, power_spectrum):
-    if not callable(power_spectrum):  # we have a Field defined on a PowerSpace
+    if isinstance(power_spectrum, Field) or not callable(power_spectrum):  # a Field defined on a PowerSpace
         if not isinstance(power_spectrum, Field):
             raise TypeError("Field object expected")
         if len(power_spectrum.domain) != 1:
